@@ -1,3 +1,3 @@
 From GoMC Require Import Base.Dec Model.C05 Model.C06.
 Require Import ExtrOcamlBasic.
-Extraction "c06_model.ml" run_flat wr read_f marshal scan r_fixedbitset r_plugin w_raw zero_of spec_img.
+Extraction "c06_model.ml" run_flat wr read_f marshal scan r_fixedbitset r_plugin w_raw zero_of spec_img r_nbtfield w_nbtfield.
